@@ -191,6 +191,39 @@ def hier_designs(tier, seed):
                lambda s=s: build(s))
 
 
+def shared_module_designs():
+    """one module instantiated several times in the hierarchy with DIFFERENT port maps: an instance that ties two (or all) of
+    its ports to one net next to instances that separate them, in every order; one and two levels deep; with internal nets"""
+    import hdl21 as h
+    import itertools as it
+
+    def mk(order, depth):
+        def b():
+            cell = h.Module(name="ShCell")
+            cell.p, cell.q, cell.w = h.Port(), h.Port(), h.Port()
+            cell.k = h.Signal()
+            cell.r1 = h.R(r=1)(p=cell.p, n=cell.k)
+            cell.r2 = h.R(r=2)(p=cell.k, n=cell.q)
+            cell.c = h.C(c=1)(p=cell.w, n=cell.q)
+            mid = cell
+            if depth == 2:
+                mid = h.Module(name="ShMid")
+                mid.p, mid.q, mid.w = h.Port(), h.Port(), h.Port()
+                mid.i1 = cell(p=mid.p, q=mid.q, w=mid.w)
+                mid.i2 = cell(p=mid.q, q=mid.q, w=mid.p)
+            top = h.Module(name="ShTop")
+            top.vdd, top.vb, top.o, top.g = h.Port(), h.Port(), h.Port(), h.Signal()
+            maps = {"tied": dict(p=top.vdd, q=top.o, w=top.vdd), "split": dict(p=top.vdd, q=top.o, w=top.vb),
+                    "all-one": dict(p=top.g, q=top.g, w=top.g), "crossed": dict(p=top.o, q=top.vdd, w=top.vb)}
+            for k, name in enumerate(order):
+                top.add(mid(**maps[name]), name=f"u{k}")
+            return top
+        return b
+    for depth in (1, 2):
+        for order in it.permutations(("tied", "split", "all-one", "crossed"), 3):
+            yield (f"shared-module/d{depth}/{'-'.join(order)}", mk(order, depth))
+
+
 def flat_top_designs():
     """single-level tops (only leaf devices below them) that have NOT been elaborated and use what elaboration resolves:
     arrays, port references, no-connects, bundles, instance pairs; the `invalid/` ones must be refused"""
@@ -336,7 +369,7 @@ def run(ctx):
     ctx.assumptions.append("flattened-name injectivity is proved for paths of up to 3 instances (arity unrolled); walk() "
                            "itself (a recursive generator) and flatten()'s assembly loops are decided by the bounded part")
     fam = [d for k, d in enumerate(design_family(ctx.tier, ctx.seed)) if ctx.tier == "thorough" or k % 3 == 0]
-    cases = itertools.chain(hier_designs(ctx.tier, ctx.seed), flat_top_designs(), fam)
+    cases = itertools.chain(hier_designs(ctx.tier, ctx.seed), flat_top_designs(), shared_module_designs(), fam)
     ctx.run_bounded("flatten-vs-original", cases, check_flatten,
                     rule="generated scalar/bus hierarchies (depth 1-3, primitive and external-module leaves, internal "
                          "nets at every level, ports passed through levels, names colliding with ':'-joined paths) plus "
@@ -344,14 +377,15 @@ def run(ctx):
                          "and ports of flatten(m) compared with m; a documented rejection is accepted only for designs "
                          "with slices/concats; single-level tops not elaborated before the call that use arrays, port references, "
                          "no-connects, bundles and pairs (the result as returned holds leaf instances on nets only), and "
-                         "three that elaboration refuses (flatten must refuse them too); distinct = distinct design; non-trivial = depth >= 2 or bus",
+                         "three that elaboration refuses (flatten must refuse them too); one module instantiated three times with different port "
+                         "maps (two ports tied / separate / all on one net / crossed) in every order, one and two levels deep (48); distinct = distinct design; non-trivial = depth >= 2 or bus",
                     bound="depth<=3", key_of=lambda c: c[0], nontrivial=lambda c: "/d1/" not in c[0])
     return INFO
 
 
 def replay(payload):
     want = (payload.get("input") or {}).get("design")
-    for desc, b in itertools.chain(hier_designs("quick", 0), flat_top_designs(), design_family("thorough", 0)):
+    for desc, b in itertools.chain(hier_designs("quick", 0), flat_top_designs(), shared_module_designs(), design_family("thorough", 0)):
         if desc == want:
             r = check_flatten((desc, b))
             print("replay:", r)
